@@ -9,6 +9,7 @@ import Lomond.Model.Http
 import Lomond.Model.Core
 import Lomond.Model.Persist
 import Lomond.Model.Threads
+import Lomond.Model.ThreadsN
 import Lomond.Model.Inflate
 import Lomond.Model.Connect
 import Lomond.Model.Handshake
@@ -505,7 +506,8 @@ def runDeflateOpts (args : List String) : String :=
      | .ok d => "ok " ++ toString d.decompressWbits ++ " " ++ toString d.compressWbits ++ " " ++
                 b2s d.resetDecompress ++ " " ++ b2s d.resetCompress)
 
-/-! ### C11 / C12: `threads v=<cu><ca> z=<0|1|2> | <prog> / <prog> ... | <schedule digits>` -/
+/-! ### C11 / C12: `threads v=<cu><ca> z=<0|1|2|3|4> | <prog> / <prog> ... | <schedule digits>`
+    (z: 1 = permessage-deflate, 2 = + client_no_context_takeover, 3 = + server_no_context_takeover, 4 = both) -/
 
 namespace Thr
 open Lomond.Threads
@@ -528,6 +530,8 @@ def parseCall (tok : String) : Option Call :=
       else if h = "cl" then codeReason.map (fun p => .close p.1 p.2)
       else if h = "rc" then codeReason.map (fun p => .onClose p.1 p.2)
       else if h = "rp" then some (.onPing (hexD a))
+      else if h = "rm" then some (.onData (hexD a))
+      else if h = "rm2" then some (.onData2 (hexD a) [])
       else none
     | _ => none
 
@@ -550,6 +554,9 @@ def kindName : Step → String
   | .setCloseTime => "wr:sent_close_time"
   | .sockClose => "sockclose"
   | .setSockNone => "wr:sock"
+  | .inflate _ => "zd:inflate"
+  | .dpeek => "zd:peek"
+  | .dreset => "zd:reset"
 
 /-- what entry `t` is going to do in state `s` -/
 def entryName (v : Threads.Variant) (cfg : Threads.Cfg) (s : State) (t : Tid) : String :=
@@ -566,6 +573,7 @@ def traceOf (v : Threads.Variant) (cfg : Threads.Cfg) : State → List Tid → L
 
 def errName : Err → String
   | .unavailable => "WebSocketUnavailable" | .closed => "WebSocketClosed" | .closing => "WebSocketClosing"
+  | .transport => "TransportFail"
 
 def resultName (c : Call) (r : Result) : String :=
   let w := if r.wrote then ":w" else ":-"
@@ -574,6 +582,8 @@ def resultName (c : Call) (r : Result) : String :=
   | .onPing _ => "ping" ++ w
   | .onClose _ _ => (if r.alt then "closed+disconnected" else "closing") ++ w
   | .autoPing => "poll" ++ w
+  | .onData _ => "text" ++ w
+  | .onData2 _ _ => "text" ++ w
   | _ => (match r.err with | none => "ok" | some e => errName e) ++ w
 
 def showChunk (cfg : Threads.Cfg) (c : Chunk) : String :=
@@ -591,7 +601,40 @@ def parseCfg (cfgS : String) : Threads.Variant × Threads.Cfg :=
   let vs := kv ct "v" "00"
   let z := kv ct "z" "0"
   ({ compressUnderLock := (vs.toList.getD 0 '0') == '1', closeAtomic := (vs.toList.getD 1 '0') == '1' },
-   { deflate := z ≠ "0", noTakeover := z = "2", key := fun t i => testKey (t * 16 + i) })
+   { deflate := z ≠ "0", noTakeover := z = "2" || z = "4", serverNoTakeover := z = "3" || z = "4",
+     key := fun t i => testKey (t * 16 + i) })
+
+/-- the socket of the general model: `n=<chunks per sendall>` (default 2), `nn=<t>.<i>:<n>,...` (per call),
+    `fail=<t>.<i>.<k>,...` (the sendall of call i of thread t raises once k chunks are out);
+    chunk sizes: the chunks before the last one have `len / n` bytes each -/
+def parseEnv (cfgS : String) : Threads.Env :=
+  let ct := cfgS.splitOn " "
+  let n := natOf (kv ct "n" "2")
+  let nn : List (Nat × Nat × Nat) := ((kv ct "nn" "").splitOn ",").filterMap fun e =>
+    match e.splitOn ":" with
+    | [k, v] => (match k.splitOn "." with | [a, b] => some (natOf a, natOf b, natOf v) | _ => none)
+    | _ => none
+  let fl : List (Nat × Nat × Nat) := ((kv ct "fail" "").splitOn ",").filterMap fun e =>
+    match e.splitOn "." with
+    | [a, b, k] => some (natOf a, natOf b, natOf k)
+    | _ => none
+  let more : Tid → Nat → Nat := fun t i =>
+    (match nn.find? (fun x => x.1 == t && x.2.1 == i) with | some x => x.2.2 | none => n) - 1
+  { more := more,
+    failAt := fun t i => (fl.find? (fun x => x.1 == t && x.2.1 == i)).map (·.2.2),
+    sizes := fun t i len => List.replicate (more t i) (len / (more t i + 1)) }
+
+def traceOfN (env : Threads.Env) (v : Threads.Variant) (cfg : Threads.Cfg) : State → List Tid → List String
+  | _, [] => []
+  | s, t :: r => ("x" ++ toString t ++ ":" ++ entryName v cfg s t) :: traceOfN env v cfg (stepN env v cfg s t) r
+
+/-- every chunk with its bytes: the `j`-th chunk of a frame carries the frame's `j`-th piece -/
+def showChunksN (env : Threads.Env) (cfg : Threads.Cfg) : List Chunk → List Chunk → List String
+  | _, [] => []
+  | pre, c :: r =>
+    ("W" ++ toString c.tid ++ "." ++ toString c.idx ++ (if c.second then "b" else "a") ++ ":" ++
+      (if isCompressed c.desc.pay then "z" else hexOfBytes ((pieces env cfg c).getD (sentOf pre c.tid c.idx) []))) ::
+      showChunksN env cfg (pre ++ [c]) r
 
 def runThreads (line : String) : String :=
   match line.splitOn " | " with
@@ -599,9 +642,10 @@ def runThreads (line : String) : String :=
     let (v, cfg) := parseCfg cfgS
     let ps := parseProgs progS
     let sched := parseSched schedS
+    let env := parseEnv cfgS
     let s0 := init (progsOf ps)
-    let s := run v cfg s0 sched
-    let tr := traceOf v cfg s0 sched
+    let s := runN env v cfg s0 sched
+    let tr := traceOfN env v cfg s0 sched
     let res : List String := (List.range ps.length).flatMap fun t =>
       let th := s.th t
       (th.results.zipIdx).map fun (r, i) =>
@@ -610,12 +654,12 @@ def runThreads (line : String) : String :=
     let peer := match peerDecode cfg.noTakeover [] (frames w) with
       | none => "fail"
       | some ms => if ms.all (fun m => ((ps.getD m.1 []).getD m.2.1 .autoPing).msg == m.2.2) then "ok" else "wrong"
-    " ".intercalate (tr ++ w.map (showChunk cfg) ++ (frames w).filterMap showZFrame ++ res ++
+    " ".intercalate (tr ++ showChunksN env cfg [] w ++ (frames w).filterMap showZFrame ++ res ++
       ["END:closing=" ++ b2s s.sh.closing ++ ":closed=" ++ b2s s.sh.closed ++ ":sock=" ++ b2s s.sh.sockOpen ++
        ":shut=" ++ b2s s.sh.sockShut ++
        ":lock=" ++ (match s.sh.lock with | none => "-" | some t => toString t) ++
-       ":whole=" ++ b2s (wholeFrames w) ++ ":closes=" ++ toString (closeCount w) ++
-       ":after=" ++ b2s (!nothingAfterClose w) ++ ":peer=" ++ peer])
+       ":whole=" ++ b2s (wholeN env w) ++ ":closes=" ++ toString (closeCount w) ++
+       ":after=" ++ b2s (!nothingAfterClose w) ++ ":afterw=" ++ b2s (!nothingAfterWholeClose w) ++ ":peer=" ++ peer])
   | _ => "bad-op"
 
 /-- `threads-enum v=.. z=.. pb=<n|-> | <progs>`: every maximal schedule of enabled steps -/
@@ -626,7 +670,7 @@ def runEnum (line : String) : String :=
     let ps := parseProgs progS
     let pbS := kv (cfgS.splitOn " ") "pb" "-"
     let pb := if pbS = "-" then 1000000 else natOf pbS
-    let scheds := enumerate v cfg ps.length 400 (init (progsOf ps)) none pb
+    let scheds := enumerateN (parseEnv cfgS) v cfg ps.length 400 (init (progsOf ps)) none pb
     " ".intercalate (scheds.map fun sc => String.join (sc.map toString))
   | _ => "bad-op"
 
